@@ -7,6 +7,7 @@ import (
 	"go/constant"
 	"go/token"
 	"go/types"
+	"sort"
 	"strconv"
 	"strings"
 
@@ -827,8 +828,38 @@ func (v *FnVC) ret(x *ssa.Return) {
 	v.frameCheck(site)
 }
 
+// panicOrdinal numbers the explicit panics of the function in source order; compiler-generated ones
+// (range-over-func state checks, which have no position of their own in the source) come last.
+func (v *FnVC) panicOrdinal(x *ssa.Panic) int {
+	var all []*ssa.Panic
+	for _, b := range v.fn.Blocks {
+		for _, ins := range b.Instrs {
+			if p, ok := ins.(*ssa.Panic); ok {
+				all = append(all, p)
+			}
+		}
+	}
+	synthetic := func(p *ssa.Panic) bool {
+		c := p.Block().Comment
+		return strings.HasPrefix(c, "rangefunc.") || strings.HasPrefix(c, "yield-")
+	}
+	sort.SliceStable(all, func(i, j int) bool {
+		si, sj := synthetic(all[i]), synthetic(all[j])
+		if si != sj {
+			return !si
+		}
+		return all[i].Pos() < all[j].Pos()
+	})
+	for i, p := range all {
+		if p == x {
+			return i + 1
+		}
+	}
+	return 0
+}
+
 func (v *FnVC) panicInstr(x *ssa.Panic) {
-	v.panicCnt++
+	v.panicCnt = v.panicOrdinal(x)
 	// panics-when clauses: the panic is allowed when one of them holds at entry
 	var allowed []string
 	for _, cl := range v.fc.Clauses {
